@@ -16,6 +16,32 @@ Open Scope Z_scope.
 Definition MReads (p : program) (inp : inputs) (m d : node) : Prop :=
   exists e v l, alookup p m = Some e /\ evr (fun n x => MdlSpec p inp n x) e v l /\ In d l.
 
+Definition model_justified_g_statement_f : Prop :=
+  forall fuel pfuel p ops i j m, wf_model_g p -> Forall op_in_scope ops -> msessions_fuelled fuel pfuel p ops i ->
+    let rs := run_history_f fuel pfuel p init_state ops in
+    executed_at rs i m -> (j < i)%nat -> executed_at rs j m ->
+    (forall k, (j < k < i)%nat -> ~ executed_at rs k m) ->
+    exists d, MReads p (inputs_after (firstn (S j) ops)) m d /\
+              forall v, MdlSpec p (inputs_after (firstn (S j) ops)) d v ->
+                        ~ MdlSpec p (inputs_after (firstn (S i) ops)) d v.
+Definition model_justified_g_statement : Prop :=
+  forall p ops i j m, wf_model_g p -> Forall op_in_scope ops -> model_sessions_fuelled p ops i ->
+    let rs := run_history p init_state ops in
+    executed_at rs i m -> (j < i)%nat -> executed_at rs j m ->
+    (forall k, (j < k < i)%nat -> ~ executed_at rs k m) ->
+    exists d, MReads p (inputs_after (firstn (S j) ops)) m d /\
+              forall v, MdlSpec p (inputs_after (firstn (S j) ops)) d v ->
+                        ~ MdlSpec p (inputs_after (firstn (S i) ops)) d v.
+
+Lemma sess_fold_stored : forall sets cur rs batch cur' rs' batch' m,
+  fold_left fsess_step sets (cur, rs, batch) = (cur', rs', batch') -> get_info cur m <> None -> get_info cur' m <> None.
+Proof.
+  induction sets as [|[v x] r IH]; intros cur rs batch cur' rs' batch' m H Hm; cbn [fold_left] in H.
+  - inversion H. subst. exact Hm.
+  - rewrite fsess_step_eq in H. eapply IH; [exact H|]. rewrite set_input_get.
+    destruct (node_eqb (mkNode KInput v) m); [discriminate|exact Hm].
+Qed.
+
 Definition model_justified_statement_f : Prop :=
   forall fuel pfuel p ops i j m, wf_model p -> Forall op_in_scope ops -> msessions_fuelled fuel pfuel p ops i ->
     let rs := run_history_f fuel pfuel p init_state ops in
@@ -33,22 +59,12 @@ Definition model_justified_statement : Prop :=
               forall v, MdlSpec p (inputs_after (firstn (S j) ops)) d v ->
                         ~ MdlSpec p (inputs_after (firstn (S i) ops)) d v.
 
-Lemma sess_fold_stored : forall sets cur rs batch cur' rs' batch' m,
-  fold_left fsess_step sets (cur, rs, batch) = (cur', rs', batch') -> get_info cur m <> None -> get_info cur' m <> None.
-Proof.
-  induction sets as [|[v x] r IH]; intros cur rs batch cur' rs' batch' m H Hm; cbn [fold_left] in H.
-  - inversion H. subst. exact Hm.
-  - rewrite fsess_step_eq in H. eapply IH; [exact H|]. rewrite set_input_get.
-    destruct (node_eqb (mkNode KInput v) m); [discriminate|exact Hm].
-Qed.
-
 Section Just.
 Variable p : program.
 Variable rk : node -> nat.
 Hypothesis Hrk : forall n e d, alookup p n = Some e -> In d (expr_reads e) -> (rk d < rk n)%nat.
 Hypothesis Hproj : forall n e d, alookup p n = Some e -> nkind n = KProjection -> In d (expr_reads e) ->
   is_fw_or_proj (nkind d) = true.
-Hypothesis Hng : forall n e, alookup p n = Some e -> no_group e = true.
 Hypothesis Htgt : forall n e d, alookup p n = Some e -> In d (expr_reads e) -> nkind d <> KExternal.
 Hypothesis Hkeys : forall n e, alookup p n = Some e -> is_mexec_kind (nkind n) = true.
 Variables fuel pfuel : nat.
@@ -85,7 +101,7 @@ Lemma GInv_step : forall L s o s' r inp,
   (forall m, In m (r_execs r) -> get_info s' m <> None).
 Proof.
   intros L s o s' r inp [HB HG] Hsc H Hfuel.
-  pose proof (mstep_inv p rk Hrk Hproj Hng Htgt Hkeys _ _ _ _ _ _ _ HB Hsc H Hfuel) as HB'.
+  pose proof (mstep_inv p rk Hrk Hproj Htgt Hkeys _ _ _ _ _ _ _ HB Hsc H Hfuel) as HB'.
   split; [split; [exact HB'|]|].
   - destruct o as [sets b|n|w v|].
     + (* session: the entries of the queries are not touched, nothing is executed *)
@@ -107,8 +123,8 @@ Proof.
         eapply HG; eauto.
     + cbn [apply_op]. unfold step_f in H. cbn [op_in_scope] in Hsc.
       destruct (query_for p None fuel [] CUser None n (set_log s [])) as [[[[o fr] ms] s1]| | |] eqn:Eq.
-      * destruct (root_query p rk Hrk Hproj Hng Htgt Hkeys _ _ _ _ _ _ _ _ HB Hsc Eq) as [HI1 _].
-        pose proof (proj1 (mmono_all p Hng fuel) _ _ _ _ _ _ _ _ _ Eq) as HM.
+      * destruct (root_query p rk Hrk Hproj Htgt Hkeys _ _ _ _ _ _ _ _ HB Hsc Eq) as [HI1 _].
+        pose proof (proj1 (mmono_all p fuel) _ _ _ _ _ _ _ _ _ Eq) as HM.
         assert (Er : r_execs r = rev (s_log s1) /\ s' = s1) by (destruct o as [[z|]|]; inversion H; subst; auto).
         destruct Er as [Er ->]. intros m i Hi d x Hx. unfold Lnext. rewrite Er.
         destruct (nmem m (rev (s_log s1))) eqn:Em.
@@ -132,11 +148,11 @@ Proof.
         destruct (propagate pfuel (set_visited (set_stat s1 0%N) []) batch) as [s4| | |] eqn:Ep;
           inversion H; subst; try exact Hs1.
         apply propagate_same in Ep. destruct Ep as (N1 & _). unfold get_info. rewrite N1. exact Hs1.
-      * destruct (mstep_query_mono p Hng fuel pfuel _ _ _ _ H) as [[-> _]|[HM _]]; [exact Hm|].
+      * destruct (mstep_query_mono p fuel pfuel _ _ _ _ H) as [[-> _]|[HM _]]; [exact Hm|].
         apply (mr_stored _ _ _ HM). exact Hm.
       * destruct Hsc.
       * cbn in H. inversion H. subst. exact Hm.
-    + intros m Hm. destruct (mstep_execs p Hng fuel pfuel _ _ _ _ _ Hsc H Hm) as [[i [Hi Hv]] Hnv]. congruence.
+    + intros m Hm. destruct (mstep_execs p fuel pfuel _ _ _ _ _ Hsc H Hm) as [[i [Hi Hv]] Hnv]. congruence.
 Qed.
 
 (** [m] was last executed under the inputs [I0], is not executed during the first [i] operations
@@ -163,7 +179,7 @@ Proof.
       * destruct HGI as [HB HG]. cbn [apply_op]. cbn [op_in_scope] in Hsc1. unfold step_f in Es.
         destruct (query_for p None fuel [] CUser None n (set_log s [])) as [[[[o fr] ms] s1]| | |] eqn:Eq;
           try (inversion Es; subst; destruct Hm).
-        destruct (root_query p rk Hrk Hproj Hng Htgt Hkeys _ _ _ _ _ _ _ _ HB Hsc1 Eq) as [HI1 _].
+        destruct (root_query p rk Hrk Hproj Htgt Hkeys _ _ _ _ _ _ _ _ HB Hsc1 Eq) as [HI1 _].
         assert (Er : r_execs r = rev (s_log s1)) by (destruct o as [[z|]|]; inversion Es; subst; auto).
         rewrite Er in Hm. apply in_rev in Hm.
         destruct (mi_J _ _ _ _ _ _ _ HI1 m Hm) as [J|(i0 & cal & x & J1 & J2 & J3)]; [exfalso; apply Hst; exact J|].
@@ -244,21 +260,28 @@ End Just.
 Lemma GInv_init : forall p rk, GInv p rk (fun _ => []) [] init_state.
 Proof. intros p rk. split; [exists init_state; apply MInv_init|]. intros m i Hi. discriminate. Qed.
 
-Theorem model_justified_f : model_justified_statement_f.
+Theorem model_justified_g_f : model_justified_g_statement_f.
 Proof.
   intros fuel pfuel p ops i j m Hwf Hsc Hfuel. cbv zeta. intros Hi Hji Hj Hno.
-  destruct (wf_model_facts p Hwf) as (rk & Hrk & Hproj & Hng & Htgt & Hkeys).
+  destruct (wf_model_g_facts p Hwf) as (rk & Hrk & Hproj & Htgt & Hkeys).
   unfold inputs_after.
-  eapply (just_main p rk Hrk Hproj Hng Htgt Hkeys fuel pfuel ops init_state [] (fun _ => [])); eauto.
+  eapply (just_main p rk Hrk Hproj Htgt Hkeys fuel pfuel ops init_state [] (fun _ => [])); eauto.
   apply GInv_init.
 Qed.
 
-Theorem model_justified : model_justified_statement.
+Theorem model_justified_g : model_justified_g_statement.
 Proof.
   intros p ops i j m Hwf Hsc Hfuel. cbv zeta. rewrite run_history_is_f. intros Hi Hji Hj Hno.
-  eapply (model_justified_f fuel0 4000%nat); eauto.
+  eapply (model_justified_g_f fuel0 4000%nat); eauto.
   intros k sets b rk0 Hk Hk1 Hk2. rewrite <- run_history_is_f in Hk2. eapply Hfuel; eauto.
 Qed.
 
+Theorem model_justified_f : model_justified_statement_f.
+Proof. intros fuel pfuel p ops i j m Hwf. apply model_justified_g_f. apply wf_model_g_of. exact Hwf. Qed.
+Theorem model_justified : model_justified_statement.
+Proof. intros p ops i j m Hwf. apply model_justified_g. apply wf_model_g_of. exact Hwf. Qed.
+
+Print Assumptions model_justified_g_f.
+Print Assumptions model_justified_g.
 Print Assumptions model_justified_f.
 Print Assumptions model_justified.
